@@ -529,7 +529,7 @@ pub fn replay(_e: &str, case: &serde_json::Value) -> Result<(), String> {
 }
 
 pub fn run(ctx: &Ctx) -> Report {
-    let (stats, failure) = run_proptest(ctx, "vsock-table", 181, ctx.n(100_000, 2_500_000), strategy, |c: &VCase, st| check(c, st));
+    let (stats, failure) = run_proptest(ctx, "vsock-table", 181, ctx.n(100_000, 10_000_000), strategy, |c: &VCase, st| check(c, st));
     Report {
         stats,
         failure,
